@@ -10,6 +10,24 @@ CLAIMED = {
     "C02": dict(technique=LIFE + "; ops push/reserve_items/reserve_regions/clear, all issued indices re-read after every step",
         text="All interleavings up to the depth bound plus every placement of <=1/2 deviations in long default runs; after every operation every index issued since the last clear is re-read against the value model.",
         note="Capacities are not part of the state fingerprint: histories that differ only in reserved capacity are merged; long runs (no state matching) cover growth/reallocation.", ref="DESIGN.md §4 C02"),
+    "C03": dict(technique="explicit-state BFS + deviation-bounded long runs on the real FlatStack<R, C> for every admissible index container, against a Vec of values; both build profiles",
+        text="Ops copy (owned / by reference), extend (0/1/3 values), from_iter rebuild, clear, reserve, clone / clone_from replacement, merge_capacity, with_capacity; after every step len, is_empty, get(i) for all i, get(len) and get(len+1) must panic, iter / &stack iteration order and count, iterator cloned mid-way, size hints valid at every step (exact for vector indices), Debug equals the list of its own items, from_iter equals repeated copy. MirrorRegion<usize> stacks drive arbitrary usize sequences (the C05 alphabet) through the index containers via the public API.",
+        note="Copy forms are limited to owned and by-reference (input forms are C20's subject).", ref="DESIGN.md §4 C03"),
+    "C09": dict(technique="explicit-state BFS on two real regions a/b: history on a, then b = a.clone() or b.clone_from(&a) into a destination pre-filled by 4 unrelated histories, then diverging pushes/clears on both; plus FlatStack clone ops; both build profiles",
+        text="Each copy is checked against its own value model after every step; right after the copy every alphabet value is pushed on scratch clones of both and must return the same index; complete renderings of clone and clone_from results must be identical.",
+        note="CodecRegion<DictionaryCodec> is not Clone and is not part of this check.", ref="DESIGN.md §4 C09"),
+    "C11": dict(technique=LIFE + " with an exact reference storage model (per CollapseSequence site: last stored value; per storage: exact used bytes)",
+        text="Collapsing regions at top level, in tuple fields, columns, slices and over consecutive pairs, with clear / merge_regions / clone / serde replacement ops: the returned index must equal the model's (previous index iff equal to the previously stored value at that site), and the used bytes of every storage reported by heap_size must equal the model exactly (so a collapsed push stores nothing and a non-equal push is never collapsed). NaN alphabets cover never-equal values.",
+        note="-0.0 is excluded from collapse alphabets (it == 0.0, so collapsing it is sanctioned by the property). serde replacement is skipped for NaN alphabets (JSON limit).", ref="DESIGN.md §4 C11"),
+    "C15": dict(technique=LIFE + " with a per-state oracle over the pool {items of this region, items of an independently built region, owned-borrowed items}; a Huffman cross-representation machine (raw / coded / coded under another code / owned)",
+        text="All pairs: ==, partial_cmp and cmp must equal the owned values' equality / lexicographic order; all triples: reflexive, antisymmetric, transitive on the observed table.",
+        note="Float-bearing compositions are not Ord and are excluded.", ref="DESIGN.md §4 C15"),
+    "C17": dict(technique="exhaustive enumeration (no state matching, capacity is state) of start state x batch x pre-sizing route on the real vector-backed regions and FlatStacks, with a thread-local counting allocator; finite sweep of the logarithmic bound",
+        text="Start states of <=2 pushes x every batch of <=2/3 items (incl. a 300-element item) x routes {every reserve_items form, reserve_regions, merge_regions([batch]), merge_regions([self, batch]), FlatStack::merge_capacity, reserve, with_capacity}: the capacities reported by heap_size must not change while exactly the announced contents are pushed, and for plain-data payloads the allocator is not called. Without pre-sizing: n = 2^6..2^10/2^14 pushes in 3 patterns cost at most storages x (ceil(log2 bytes) + 2) allocator calls.",
+        note="The logarithmic part is a finite sweep of a parametric bound, as the property's own quantifier states.", ref="DESIGN.md §4 C17"),
+    "C18": dict(technique=LIFE + " with an exact reference storage model: number, order and exact used bytes of every heap_size callback",
+        text="After every push / clear / reserve_items / merge_regions: used <= capacity for every pair; the callbacks match the composition's storages one by one (every branch contributes) with exactly the bytes the model stores (payload after deduplication, one index entry per slice element / row cell, documented index compression); total used never decreases on push; after clear no capacity shrinks.",
+        note="Exact equality is stronger than the property's lower bound; it holds on the current tree for every non-coded composition. Coded regions: only used <= capacity and monotonicity (Huffman's heap_size is an explicit todo!() stub and is excluded).", ref="DESIGN.md §4 C18"),
     "C04": dict(technique=LIFE + " on the string-bearing compositions with clear/clone/clone_from/serde/merge replacement ops; plus a finite syntactic audit of src/**/*.rs for the program-text half",
         text="Dynamic half: every &str reachable through index/get/iteration is validated with str::from_utf8 and compared byte-for-byte with the model string after every step. Program-text half: exhaustive enumeration of every unsafe token, every *unchecked* identifier, every impl Push<_> for StringRegion, blanket Push impls and writes to StringRegion.inner (an audit, not model checking; reported separately in the evidence).",
         note="The audit is syntactic (comment/string-stripped token scan); it trusts rustc's privacy rules for the private field.", ref="DESIGN.md §4 C04"),
@@ -49,7 +67,7 @@ CLAIMED = {
         text="Every value x every input form (incl. forms of children reached through nesting, read items from another region, owned-borrowed read items) mixed arbitrarily up to the depth bound: equal indices, equal per-storage used bytes, equal complete renderings.", note="", ref="DESIGN.md §4 C20"),
 }
 
-PENDING_REASON = "check under construction in this session (see DESIGN.md §9 for the order); not claimed until its machine exists"
+PENDING_REASON = "not claimed"
 
 def main():
     props = [json.loads(l) for l in open("/verif/properties.jsonl")]
